@@ -38,6 +38,12 @@ def generate(tier, seed):
                 cases.append(dict(columns=('reordered' if r % 3 == 1 else 'standard'), legacy=(r % 4 == 3), err_unit=(a if rng.random() < 0.5 else rng.choice(names)), twin_nu=twin, stored=a, requested=b, third=rng.choice(names), nu=nu, order=rng.choice(['incr', 'decr']),
                                   flux=[[rng.logdyadic(1e-3, 1e3, 10) for _ in nu] for _ in range(nap)], dist_kpc=rng.logdyadic(1e-3, 1e3, 8),
                                   bad=rng.choice(['K', 'm', 'Hz', 'kg', 'W / Hz', 'Jy / sr', 'erg / (s cm3)', 'mJy2', 'erg / (s cm2 micron)']) if r == 0 else None, read_order=rng.choice(['nu', 'wav'])))
+    for k, c in enumerate(cases):
+        if k % 5 == 2:
+            # a file whose arrays are stored in single precision (as the SED files shipped with the package are), holding faint fluxes:
+            # all values are single-precision numbers, only an intermediate F / nu would not be
+            c['f32'] = True
+            c['flux'] = [[x * 2.0 ** -110 for x in row] for row in c['flux']]
     return cases
 
 
@@ -53,7 +59,9 @@ def impl(case):
     s.nu = np.array(nu) * u.Hz
     s.wav = s.nu.to(u.micron, equivalencies=u.spectral())
     s.apertures = None if len(case['flux']) == 1 else np.arange(1, len(case['flux']) + 1) * 100.0 * u.au
-    s.flux = np.array([r if o == 'incr' else list(reversed(r)) for r in case['flux']]) * u.Unit(case['stored'])
+    s.flux = np.array([r if o == 'incr' else list(reversed(r)) for r in case['flux']], dtype=np.float32 if case.get('f32') else float) * u.Unit(case['stored'])
+    if case.get('f32'):
+        s.nu = np.array(nu, dtype=np.float32) * u.Hz
     # the uncertainty column may be stored in another unit than the flux column (SED.write keeps the two units apart)
     s.error = s.flux.value * 0.5 * u.Unit(case.get('err_unit', case['stored']))
     out = {}
